@@ -642,6 +642,9 @@ func runC06(c *Ctx) {
 		r := mon.NewRng(uint64(c.Seed) ^ 0x66)
 		inScope := inScopeKeys()
 		for _, enc := range AllEncodings() {
+			if (enc.Table == ref.TDD || enc.Table == ref.TFD) && (enc.Op == 0xdd || enc.Op == 0xfd || enc.Op == 0xed) {
+				continue // prefix chains: on silicon the last prefix wins (DD ED 4D is RETI); no verdict
+			}
 			for k := 0; k < 16; k++ {
 				sc := MakeStepCase(enc, r, k)
 				sc.NoHandlers = k%4 == 3
